@@ -18,6 +18,7 @@ Data formats that describe the general structure of the data.
 import codecs
 import csv
 import string
+import sys
 import token
 import tokenize
 
@@ -359,6 +360,8 @@ class DataFormat(object):
             self.item_delimiter = item_delimiter
         elif name == KEY_LINE_DELIMITER:
             try:
+                if value.lower() not in self._VALID_LINE_DELIMITER_TEXTS:
+                    raise KeyError(value)
                 self.line_delimiter = _TEXT_TO_LINE_DELIMITER_MAP[value.lower()]
             except KeyError:
                 raise errors.InterfaceError(
@@ -374,7 +377,12 @@ class DataFormat(object):
             quoting = DataFormat._validated_choice(KEY_QUOTING, value, _VALID_QUOTING, location, ignore_case=True)
             self.quoting = QUOTING_TO_CSV_QUOTE_MAP[quoting]
         elif name == KEY_SHEET:
-            self.sheet = DataFormat._validated_int_at_least_0(KEY_SHEET, value, location)
+            sheet = DataFormat._validated_int_at_least_0(KEY_SHEET, value, location)
+            if sheet < 1:
+                raise errors.InterfaceError(
+                    "data format property %s is %d but must be at least 1" % (_compat.text_repr(KEY_SHEET), sheet), location
+                )
+            self.sheet = sheet
         elif name == KEY_SKIP_INITIAL_SPACE:
             self.skip_initial_space = DataFormat._validated_bool(KEY_SKIP_INITIAL_SPACE, value, location)
         elif name == KEY_THOUSANDS_SEPARATOR:
@@ -382,7 +390,9 @@ class DataFormat(object):
                 KEY_THOUSANDS_SEPARATOR, value, _VALID_THOUSANDS_SEPARATORS, location
             )
         else:
-            assert False, "name=%r" % name
+            raise errors.InterfaceError(
+                "data format property %s cannot be set" % _compat.text_repr(name), location
+            )
 
     @staticmethod
     def _validated_choice(key, value, choices, location, ignore_case=False):
@@ -489,6 +499,10 @@ class DataFormat(object):
         # TODO: Handle 'none' properly.
         assert result_code is not None
         assert result_code >= 0
+        if result_code > sys.maxunicode:
+            raise errors.InterfaceError(
+                "value for %s is %d but must be at most %d" % (name_for_errors, result_code, sys.maxunicode), location
+            )
         result = chr(result_code)
         return result
 
